@@ -116,6 +116,10 @@ pub struct Case {
     /// rolling - the trace, not the state, is what the run has to follow
     #[serde(default)]
     pub init_speed_unset: bool,
+    /// set-speed runs: the trace's time stamps start this many seconds away from the initial time of the train
+    /// state (a trace recorded against its own datum, or trimmed from the front): the run follows the trace's stamps
+    #[serde(default)]
+    pub trace_datum_shift: f64,
     /// before every top-level interval change one unit of the consist is given an interval of its own (a unit
     /// configured individually, or exchanged): the top-level change that follows must still reach everything,
     /// also when it sets the value the consist itself already has
@@ -639,9 +643,13 @@ pub fn generate(rng: &mut Rng, focus: &str, thorough: bool) -> Case {
         hash_seed: rng.next(),
         init_offset: None,
         init_speed_unset: false,
+        trace_datum_shift: 0.0,
         nested_drift: false,
         fric_ramp_up: None,
     };
+    if matches!(c.kind, Kind::SetSpeed { .. }) && rng.chance(0.08) {
+        c.trace_datum_shift = *rng.pick(&[3600.0, 600.0, -250.0, 0.5, 86400.0]);
+    }
     if !matches!(c.kind, Kind::SetSpeed { .. }) && (downhill || rng.chance(0.12)) {
         c.fric_ramp_up = Some(if downhill { *rng.pick(&[20.0, 60.0, 60.0]) } else { *rng.pick(&[5.0, 20.0, 60.0]) });
     }
@@ -754,7 +762,7 @@ fn spurious_stall(sim: &SpeedLimitTrainSim, e: &anyhow::Error, links: &[Link], r
 
 /// `speed_before_first`: the speed before the first step when it is not the initial state's (a set-speed run
 /// follows its trace from the trace's first sample on)
-fn check_kinematics(ctx: &mut Ctx, tr: &Traj, links: &[Link], route: &[usize], length: f64, speed_before_first: Option<f64>) {
+fn check_kinematics(ctx: &mut Ctx, tr: &Traj, links: &[Link], route: &[usize], length: f64, speed_before_first: Option<f64>, first_step_joins_trace_datum: bool) {
     let s = &tr.states;
     let mut dist = s[0].total_dist.value;
     let mut bases = vec![0.0];
@@ -765,7 +773,8 @@ fn check_kinematics(ctx: &mut Ctx, tr: &Traj, links: &[Link], route: &[usize], l
         ctx.event = k;
         let (a, b) = (&s[k - 1], &s[k]);
         let dt = b.dt.value;
-        if !close(b.time.value - a.time.value, dt, 1e-12, 1e-9, b.time.value.abs()) {
+        // (the initial state precedes the trace: when the trace has a datum of its own the first executed step joins it)
+        if !(k == 1 && first_step_joins_trace_datum) && !close(b.time.value - a.time.value, dt, 1e-12, 1e-9, b.time.value.abs()) {
             ctx.violate("C12", "kinematics", "time advances by exactly the step size", format!("step {k}: time {} -> {} with dt {dt}", a.time.value, b.time.value));
         }
         let va = if k == 1 { speed_before_first.unwrap_or(a.speed.value) } else { a.speed.value };
@@ -1317,7 +1326,10 @@ pub fn execute(case: &Case, ctx: &mut Ctx) {
                 ctx.hit("probe.set_speed.rolling_start_with_unset_state_speed");
             }
             let tsb = TrainSimBuilder::new("t0".into(), tc, con0.clone(), None, None, Some(its));
-            let mut t = case.init_time;
+            let mut t = case.init_time + case.trace_datum_shift;
+            if case.trace_datum_shift != 0.0 {
+                ctx.hit("fault.clock.trace_datum_differs_from_state_time");
+            }
             let mut times = vec![t];
             let mut speeds = vec![*v0];
             for (dt, v) in trace {
@@ -1451,8 +1463,8 @@ pub fn execute(case: &Case, ctx: &mut Ctx) {
             }
             if !*shipped_walk || case.save_interval == Some(1) {
                 ctx.layer = "train-stepping";
-                check_set_speed(ctx, &tr, *v0, trace, case.init_time, &con_init, db_cap);
-                check_kinematics(ctx, &tr, links, &route, r.length, Some(*v0));
+                check_set_speed(ctx, &tr, *v0, trace, case.init_time + case.trace_datum_shift, &con_init, db_cap);
+                check_kinematics(ctx, &tr, links, &route, r.length, Some(*v0), case.trace_datum_shift != 0.0);
                 check_resistance(ctx, &tr, links, &route, &r);
                 // (the set-speed simulation keeps its path private: read it the way a user would, from a saved copy)
                 if let Some(path) = serde_yaml::to_value(&sim).ok().and_then(|v| v.get("path_tpc").cloned()).and_then(|v| serde_yaml::to_string(&v).ok()).and_then(|y| <PathTpc as altrios_core::traits::SerdeAPI>::from_yaml(y).ok()) {
@@ -1594,7 +1606,7 @@ pub fn execute(case: &Case, ctx: &mut Ctx) {
             ctx.nontrivial = tr.states.len() >= 20;
             if tr.states.len() > 1 {
                 check_limit_run(ctx, tr, links, &route, &case.train, &r);
-                check_kinematics(ctx, tr, links, &route, r.length, None);
+                check_kinematics(ctx, tr, links, &route, r.length, None, false);
                 check_resistance(ctx, tr, links, &route, &r);
                 let n_deliv = tr.delivered.last().copied().unwrap_or(route.len()).min(route.len());
                 check_backward_sweep(ctx, &sim.state, &sim.train_res, &sim.path_tpc, links, &route[..n_deliv], &r, case.hash_seed);
